@@ -24,7 +24,7 @@ EVIDENCE = os.environ.get("VERIF_EVIDENCE_DIR", os.path.join(ROOT, "evidence"))
 SPEC = os.path.join(ROOT, "spec")
 TLA_CP = "/opt/veriftools/tla/tla2tools.jar:/opt/veriftools/tla/CommunityModules-deps.jar"
 NCPU = os.cpu_count() or 4
-PURE_SPECS = ["BSON.tla", "Path.tla", "Query.tla", "QueryRef.tla", "BigDec.tla", "Update.tla", "SortDistinct.tla", "Projection.tla"]
+PURE_SPECS = ["BSON.tla", "Path.tla", "Schema.tla", "Query.tla", "QueryRef.tla", "BigDec.tla", "Update.tla", "SortDistinct.tla", "Projection.tla"]
 
 
 class Inconclusive(Exception):
